@@ -617,6 +617,8 @@ class Body:
                 else:
                     out.append((pos, d))
             return out
+        if k == 'vfield' and t[2] in ('Break', 'Continue'):
+            return None      # the residual of `?`: read by return_terms()/_failure_alternatives, not a payload selection
         if k in ('ok', 'vfield'):
             base = deep_strip(t[1])
             if base[0] == 'call' and canon(base[1]).endswith('Try::branch') and len(base[2]) == 1:
